@@ -95,7 +95,12 @@ class HierDictDocument(DictDocument):
             # its wrapper.
             if self.ignore_wrappers or issubclass(body_class, Array) \
                              or not issubclass(body_class, ComplexModelBase):
-                doc = doc.get(class_name, None)
+                message_doc = doc.get(class_name, None)
+                if message_doc is None and self.key_encoding is not None:
+                    # the peer may have sent its keys as bytes
+                    message_doc = doc.get(
+                                  class_name.encode(self.key_encoding), None)
+                doc = message_doc
 
             if not issubclass(body_class, ComplexModelBase):
                 # a bare method whose single argument is not an object
